@@ -37,7 +37,8 @@ DSet(c) == { c.dset[i] : i \in 1..Len(c.dset) }
 HasW(tk) == tk \in {1, 3}
 HasR(tk) == tk \in {2, 3}
 
-Ticks(c) == IF c.kind = "bus"
+\* c.r > 0 bounds the drift (always for the bus synchroniser; for FIFO crossings only in the quick tier)
+Ticks(c) == IF c.r > 0
             THEN { tk \in {1, 2, 3} : (tk = 1 => run[1] < c.r) /\ (tk = 2 => run[2] < c.r) }
             ELSE {1, 2, 3}
 
@@ -70,7 +71,8 @@ CStep(c, iv, o) ==
   /\ wfresh' = HasW(tk) /\ rfresh' = HasR(tk)
   /\ oprev' = IF fifo /\ o[2] = 1 /\ ~srcfire THEN <<o[3]>> ELSE <<>>
   /\ seen' = IF c.kind = "bus" THEN seen \cup { iv[2] } ELSE seen
-  /\ run' = IF tk = 1 THEN <<run[1] + 1, 0>> ELSE IF tk = 2 THEN <<0, run[2] + 1>> ELSE <<0, 0>>
+  /\ run' = IF c.r = 0 THEN <<0, 0>>
+            ELSE IF tk = 1 THEN <<run[1] + 1, 0>> ELSE IF tk = 2 THEN <<0, run[2] + 1>> ELSE <<0, 0>>
   /\ obs' = [okorder |-> okorder,
              \* an output presented and not taken stays (the read side sees it at every instant)
              okhold  |-> (fifo /\ oprev # <<>>) => (o[2] = 1 /\ o[3] = oprev[1]),
